@@ -228,7 +228,8 @@ pub fn templates_around_unknown_kept(sim: &mut Sim, code_prefix: &str, d: &Deliv
             // A different *new* definition may stem from a later set the library went on to
             // process; that is not this clause's business.
             let sib = (proto, !def.is_options(), id);
-            if post.get(&key) != Some(def) && post.get(&key) == pre.get(&key) && post.get(&sib) == pre.get(&sib) {
+            // (or it is gone altogether: a roll-back that removes instead of restoring)
+            if post.get(&key) != Some(def) && (post.get(&key) == pre.get(&key) || post.get(&key).is_none()) && post.get(&sib) == pre.get(&sib) {
                 sim.find(
                     &format!("{}-template-of-failing-packet-not-kept", code_prefix),
                     d.ev,
@@ -656,10 +657,27 @@ pub fn trunc(s: &str, n: usize) -> String {
 }
 
 fn c04_c05(sim: &mut Sim, prop: &str, d: &Delivery) -> u64 {
+    let pre = snap(&sim.parsers[d.p]);
     let Some(r) = primary(sim, prop, d) else { return 3 };
     let post = snap(&sim.parsers[d.p]);
     let w = model_step(sim, d, &post);
     let version = if prop == "C04" { 9 } else { 10 };
+    // the governing template of an id is the latest one the stream announced: a cached
+    // definition may be displaced by a later one (of either kind), never just disappear -
+    // after a packet that failed as a whole the model re-reads the real caches, so a
+    // definition lost there would go unnoticed by the decode comparison below
+    let proto = if version == 9 { Proto::V9 } else { Proto::Ipfix };
+    for k in pre.keys().filter(|k| k.0 == proto) {
+        let sib = (k.0, !k.1, k.2);
+        if !post.contains_key(k) && !(post.get(&sib).is_some() && pre.get(&sib) != post.get(&sib)) {
+            sim.find(
+                &format!("{}-governing-template-lost", prop),
+                d.ev,
+                format!("template {:?} was announced and cached before this delivery and is gone after it: later data for it cannot be decoded with the definition that was sent", k),
+            );
+            break;
+        }
+    }
     let rep = compare_decode(sim, prop, version, d, &w, &r);
     sim.stats.oracle_evals += rep.sets_checked;
     sim.stats.probe_n("records_compared", rep.records_checked);
@@ -1631,7 +1649,7 @@ pub fn deliver(sim: &mut Sim, prop: &str, d: &Delivery) -> u64 {
 
 pub fn finish(sim: &mut Sim, prop: &str, trace: &Trace) {
     // (the replica is fed under the final `allowed_versions`: not comparable after a run-time change)
-    if prop == "C06" && sim.findings.iter().all(|f| f.code.starts_with("KF-")) && !sim.stats.probes.contains_key("allowed_versions_changed_at_run_time") {
+    if prop == "C06" && sim.findings.iter().all(|f| f.code.starts_with("KF-")) && !sim.stats.probes.contains_key("allowed_versions_changed_at_run_time") && !sim.stats.probes.contains_key("caches_reset_at_run_time") {
         let last = trace.events.len().saturating_sub(1);
         // (6) replica-from-scratch: the public caches are the whole state
         for p in 0..sim.parsers.len() {
